@@ -782,6 +782,16 @@ fn random_calls(rng: &mut Rng, env: &Env, tags: &mut BTreeSet<String>, richness:
         let key = if !keys.is_empty() && rng.chance(1, 3) {
             tags.insert("env.rewrite_same_key".into());
             rng.pick(&keys).clone()
+        } else if !keys.is_empty() && rng.chance(1, 4) {
+            // a key that differs from an earlier one only in ASCII case: a different variable
+            let base = rng.pick(&keys).clone();
+            let flipped: String = base.chars().map(|c| if c.is_ascii_lowercase() { c.to_ascii_uppercase() } else { c.to_ascii_lowercase() }).collect();
+            if flipped != base && key_allowed(&flipped) {
+                tags.insert("env.key_differs_only_in_case".into());
+                flipped
+            } else {
+                gen_key(rng, tags, &env.inherited_keys)
+            }
         } else {
             gen_key(rng, tags, &env.inherited_keys)
         };
